@@ -13,7 +13,7 @@ META = {
             "a let/use statement the initialiser is visited in the old scope before the new scope is allocated, the binders go into the "
             "new scope, and later statements see it; S4 name lookup walks expression scopes innermost-first, then module values, then "
             "built-ins; the module scope puts functions/constants/variants into values, types/aliases into types, and imports only "
-            "public declarations. One obligation per variant / call site. S6-S8 qualified values, import namespaces (see DESIGN). S9 no castable node consists of exactly one node of its own kind (lib/shape.py: children of every finish_node site), so AstPtr = (kind, range) identifies a binder; S10 a NameRef under MODULE_NAME_REF is resolved as a module before the value namespace is tried; S11 the pattern of a let / use statement is lowered whatever its right-hand side is. S12 lower_expr_stmt never hands its statement list to a nested call of itself; S13 a module resolution for the base of `base.label` is recorded only after the base's type was tested.",
+            "public declarations. One obligation per variant / call site. S6-S8 qualified values, import namespaces (see DESIGN). S9 no castable node consists of exactly one node of its own kind (lib/shape.py: children of every finish_node site), so AstPtr = (kind, range) identifies a binder; S10 a NameRef under MODULE_NAME_REF is resolved as a module before the value namespace is tried; S11 the pattern of a let / use statement is lowered whatever its right-hand side is. S12 lower_expr_stmt never hands its statement list to a nested call of itself; S13 a module resolution for the base of `base.label` is recorded only after the base's type was tested. S14 module_name builds the ModuleMap keys positionally (no component is compared with a directory name).",
     "explanation": "Decides the construction shape that Gleam's scoping rules require (innermost binder wins, a let binder is not visible "
                    "in its own initialiser, clause/lambda/use bindings do not escape, values and types are separate namespaces). That "
                    "the classifier maps every syntactic position to the right lookup is behavioural and not decided.",
@@ -377,6 +377,7 @@ def run(F, res, tier):
     module_qualifier_contexts(F, res)
     binders_independent_of_initialiser(F, res)
     statement_blocks_and_field_access(F, res)
+    module_names_are_positional(F, res)
     # ---- S4
     rn = F.fn("ide::def::resolver::Resolver::resolve_name")
     names = [(b, FL.short(callee(t) or callee_def(t))) for b, t in rn.calls()]
@@ -705,7 +706,7 @@ def _arm_kinds(F, fn_path, build_adt):
     return set(_arm_map(F, fn_path, build_adt))
 
 
-def namespaces(F, res):
+def namespaces(F, res, rule7="S7", rule8="S8"):
     """S7: an unqualified import takes its items from the module the import statement names (full path through the module
     map), not from any table keyed by local accessors. S8: the module scope's `values` only ever receives value kinds and
     `types` only type kinds (the kinds are read from Resolver::resolve_name / resolve_type), and an imported item goes to
@@ -729,7 +730,7 @@ def namespaces(F, res):
         else:
             ok = False
             why = "the file comes from %s" % (FL.short(callee(base["t"]) or callee_def(base["t"])) if base.get("k") == "call" else base.get("k"))
-    res.ob("S7", "resolve_import/module-by-full-path", "the module an unqualified import takes its items from is looked up in the module map by the "
+    res.ob(rule7, "resolve_import/module-by-full-path", "the module an unqualified import takes its items from is looked up in the module map by the "
            "import's full module path (nothing keyed by a local accessor or alias decides it)", ok, where=ri.loc(), how=why)
     val_k = _arm_kinds(F, "ide::def::resolver::Resolver::resolve_name", RR)
     typ_k = _arm_kinds(F, "ide::def::resolver::Resolver::resolve_type", RR)
@@ -765,13 +766,13 @@ def namespaces(F, res):
                 if g.get("ty") == MD or set(g.get("allowed") or []) <= allv and g.get("allowed") and all(isinstance(x, str) for x in g["allowed"]):
                     kinds &= set(g["allowed"])
         want = val_k if which == "values" else typ_k
-        res.ob("S8", "module-scope/%s/%d" % (which, ordn), "only %s kinds are bound in the module scope's `%s` (a type bound as a value hides the "
+        res.ob(rule8, "module-scope/%s/%d" % (which, ordn), "only %s kinds are bound in the module scope's `%s` (a type bound as a value hides the "
                "constructor of the same name, and vice versa)" % ("value" if which == "values" else "type", which), kinds <= want,
                where=fn.loc(t["ln"]), how="kinds that can reach this insert: %s" % sorted(kinds))
         if from_import:
             flag = [g["allowed"] for g in gs if g.get("allowed") in ([True], [False])]
             need = [False] if which == "values" else [True]
-            res.ob("S8", "import/%s/%d" % (which, ordn), "an imported item is bound in `%s` only when the import %s written `type X`" %
+            res.ob(rule8, "import/%s/%d" % (which, ordn), "an imported item is bound in `%s` only when the import %s written `type X`" %
                    (which, "was" if which == "types" else "was not"), need in flag, where=fn.loc(t["ln"]),
                    how="boolean gates on this insert: %s" % flag)
     res.floor("inserts into the module scope's values/types", n, 7)
@@ -946,3 +947,36 @@ def statement_blocks_and_field_access(F, res):
     res.ob("S13", "field-access/record-before-module", "`base.label` records a module resolution for its base only after the base's inferred type was "
            "tested (a local record of the name of an imported module is not taken for the module)", ok, where=g.loc(ins[0][1]["ln"]) if ins else g.loc(),
            how="module_resolution inserts: %d, each dominated by a test of the base's type (%d tests on Ty): %s" % (len(ins), len(tests), ok))
+
+
+def module_names_are_positional(F, res, rule="S14"):
+    """S14: the keys of ModuleMap (module name -> file) are built by ide::base::module_name from a file's path below its root,
+    the look-ups by lower_import from the segments of the import statement; both sides must build the same string. The path
+    side is positional - the first component below the root (`src`, `test`, whatever it is called) is dropped, the rest is the
+    name - so it compares no component with a directory name: a module in a directory called `test` below `src` keeps its
+    `test/` (a name-based strip turns src/test/helpers.gleam into `helpers`, which then shadows src/helpers.gleam)."""
+    import re as _re
+    f = F.fn("ide::base::module_name")
+    lits = set()
+    for u in [f] + [F.fns[c] for c in F.closures_of(f.path)]:
+        for b, i, s in u.stmts():
+            rv = s.get("rv") or {}
+            for o in [rv.get("op"), rv.get("a"), rv.get("b")] + list(rv.get("ops", []) or []):
+                if isinstance(o, dict) and isinstance(o.get("k"), dict) and "str" in o["k"]:
+                    lits.add(o["k"]["str"])
+        for b, t in u.calls():
+            for a in t["args"]:
+                if isinstance(a, dict) and isinstance(a.get("k"), dict) and "str" in a["k"]:
+                    lits.add(a["k"]["str"])
+        for pr in u.d.get("promoted", []) or []:
+            for blk in pr.get("blocks", []) or []:
+                for s in blk.get("stmts", []):
+                    rv = s.get("rv") or {}
+                    for o in [rv.get("op")] + list(rv.get("ops", []) or []):
+                        if isinstance(o, dict) and isinstance(o.get("k"), dict) and "str" in o["k"]:
+                            lits.add(o["k"]["str"])
+    names = sorted(x for x in lits if _re.fullmatch(r"[A-Za-z_][A-Za-z0-9_]*[/\\\\]?", x) and x != "gleam")
+    drops = [t for b, t in f.calls() if FL.short(callee(t) or callee_def(t) or "").rsplit("::", 1)[-1] in ("skip", "nth", "next", "strip_prefix")]
+    res.ob(rule, "module_name/positional", "module_name derives the module's name from the position of the path components below the root and "
+           "compares none of them with a directory name", not names and bool(drops), where=f.loc(),
+           how="directory-name literals: %s; positional steps (skip/next/strip_prefix(root)): %d" % (names, len(drops)))
